@@ -1,5 +1,6 @@
 use crate::Stream;
 
+pub mod c09;
 pub mod c10;
 pub mod c11;
 pub mod c12;
@@ -10,6 +11,7 @@ pub fn lookup(name: &str) -> Option<Box<dyn Stream>> {
         "c19" => Some(Box::new(c19::C19::new())),
         "c12" => Some(Box::new(c12::C12::new())),
         "c10" => Some(Box::new(c10::C10::new())),
+        "c09" => Some(Box::new(c09::C09::new())),
         "c11" => Some(Box::new(c11::C11::new())),
         _ => None,
     }
